@@ -29,12 +29,12 @@ from vf import core, recgen
 
 THEOREMS = [
     "C05_generated_facts", "C05_coerce_sound_partial", "C05_refuted_boolean_fraction", "C05_refuted_uint_fraction",
-    "C05_refuted_digest_text", "C05_invariant", "C05_invariant_refuted", "C05_failed_op_is_noop",
-    "C05_rejects_unrepresentable", "C05_rejects_uint16_out_of_range", "C05_rejects_uint32_out_of_range",
-    "C05_rejects_boolean_other_integer", "C05_rejects_non_bytes", "C05_rejects_malformed_digest",
-    "C05_rejects_address_out_of_range", "C05_accepts_representable", "C05_conversions",
-    "C05_serialisable_partial", "C05_refuted_lone_surrogate", "C05_list_elements", "C05_list_bad_element_rejects_all",
-    "C05_none_is_always_accepted", "C05_hyp_satisfiable",
+    "C05_refuted_digest_text", "C05_invariant", "C05_invariant_blank", "C05_invariant_refuted",
+    "C05_failed_op_is_noop", "C05_none_is_always_accepted", "C05_rejects_unrepresentable",
+    "C05_rejects_uint16_out_of_range", "C05_rejects_uint32_out_of_range", "C05_rejects_boolean_other_integer",
+    "C05_rejects_non_bytes", "C05_rejects_malformed_digest", "C05_rejects_address_out_of_range",
+    "C05_accepts_representable", "C05_conversions", "C05_serialisable_partial", "C05_refuted_lone_surrogate",
+    "C05_list_elements", "C05_list_bad_element_rejects_all", "C05_hyp_satisfiable",
 ]
 
 UTC = pydt.timezone.utc
@@ -581,6 +581,8 @@ class World:
             c.expect = "reject"
         if tn == "boolean" and isinstance(v, (int, float)) and c.expect is None:
             c.expect = "accept" if (v == 0 or v == 1) and not isinstance(v, float) else ("reject" if not (v == 0 or v == 1) else None)
+        if tn == "boolean" and isinstance(v, float) and 0 < v < 1:
+            c.classes.add("float_strictly_between_0_and_1")
         if tn == "bytes" and c.expect is None:
             c.expect = "accept" if type(v) is bytes else "reject"
         if tn == "digest" and c.expect is None and not isinstance(v, (tuple, list, dict)):
@@ -642,6 +644,8 @@ class World:
                     c.classes.add("not_tuple_list_dict")
                 if et in UINTS and isinstance(x, float):
                     c.classes.add("float_in_range")
+                if et == "boolean" and isinstance(x, float) and 0 < x < 1:
+                    c.classes.add("float_strictly_between_0_and_1")
         if has_lone(v):
             c.classes.add("text_lone_surrogate")
 
@@ -1149,10 +1153,52 @@ def explain(ctx, term):
     return out[-3000:]
 
 
+def sweep_one(name, z):
+    """(accepted, consistent) of <type>(z) for an integer z"""
+    from flow.record import fieldtypes as ft
+    cls = getattr(ft, name)
+    try:
+        v = cls(z)
+    except (ValueError, OverflowError, TypeError):
+        return False, True
+    if name == "boolean":
+        return True, type(v.value) is bool and int(v) == z == int(v.value)
+    return True, type(v.value) is int and int(v) == z == v.value
+
+
+def range_sweep(ctx, report=True):
+    """the whole uint16 range (and a margin), +-1000 around both uint32 limits and every power of two, -1000..1000
+    for boolean: accepted exactly inside the range, stored unchanged.  Returns True when a violation was reported."""
+    plans = [
+        ("uint16", 0xFFFF, range(-70000, 140000)),
+        ("uint32", 0xFFFFFFFF, list(range(-1000, 1000)) + list(range(0xFFFFFFFF - 1000, 0xFFFFFFFF + 1000))
+         + [s * (2 ** k) + d for k in range(8, 70) for d in (-1, 0, 1) for s in (1, -1)]),
+        ("boolean", 1, range(-1000, 1001)),
+    ]
+    for name, m, zs in plans:
+        n = 0
+        for z in zs:
+            acc, cons = sweep_one(name, z)
+            n += 1
+            want = 0 <= z <= m
+            if acc != want or not cons:
+                if report:
+                    ctx.violation("%s(%d) is %s%s; the type represents exactly 0..%d" % (
+                        name, z, "accepted" if acc else "rejected", "" if cons else " and stored inconsistently", m),
+                        dict(kind="sweep", type=name, value=z, want=want))
+                return True
+        ctx.count_case(("sweep", name, n), nontrivial=True)
+        ctx.coverage["evaluations"] += n - 1
+        ctx.notes.append("range sweep %s: %d integers" % (name, n))
+    return False
+
+
 def search(ctx, reason):
     """The proof / translator broke: look for a concrete failing input on the implementation."""
     kf = core.known_for("C05")
     try:
+        if range_sweep(ctx):
+            return True
         world = World()
         names = all_typenames()
         cases = single_cases(world, names) + random_cases(world, names, random.Random(ctx.seed), 150)
@@ -1201,6 +1247,8 @@ def run(ctx):
     quick = ctx.tier == "quick"
     cases = single_cases(world, names) + random_cases(world, names, rnd, 250 if quick else 3000)
     reported, terms, metas = evaluate(ctx, world, cases, kf)
+    if not reported:
+        range_sweep(ctx)
     ctx.coverage["exhaustive"] = False
     ctx.notes.append("%d operation sequences (%d from the candidate tables, %d random), %d types incl. list forms" % (
         len(cases), sum(1 for c in cases if c.label == "table"), sum(1 for c in cases if c.label == "random"),
@@ -1210,6 +1258,11 @@ def run(ctx):
 
 
 def replay(obj):
+    if obj.get("kind") == "sweep":
+        acc, cons = sweep_one(obj["type"], obj["value"])
+        print("replay %s(%d): %s, consistent=%s (expected %s)" % (obj["type"], obj["value"], "accepted" if acc else "rejected",
+                                                                   cons, "accepted" if obj["want"] else "rejected"))
+        return 0 if (acc == obj["want"] and cons) else 1
     if obj.get("kind") != "ops":
         print("replay of kind %s: re-run ./check C05" % obj.get("kind"))
         return 2
